@@ -19,6 +19,9 @@ const prelude = `(declare-sort Str 0)
 (declare-fun sbyte (Str Int) Int)
 (declare-const str.empty Str)
 (assert (= (slen str.empty) 0))
+(assert (forall ((s Str)) (! (and (>= (slen s) 0) (< (slen s) 2147483648)) :pattern ((slen s)))))
+(declare-fun sidx (Int Int) Int)
+(assert (forall ((o Int) (i Int)) (! (= (sidx o i) (+ o i)) :pattern ((sidx o i)))))
 (declare-fun bit (Int Int) Bool)
 (declare-fun wraps (Int Int) Bool)
 `
@@ -59,7 +62,9 @@ func (c *Ctx) strEq(a, b T) T {
 		a, b = b, a
 	}
 	if b == "str.empty" {
-		c.onceFact("empty:"+a, eq(eq(app("slen", a), "0"), eq(a, "str.empty")))
+		if !strings.Contains(a, "q.") {
+			c.onceFact("empty:"+a, eq(eq(app("slen", a), "0"), eq(a, "str.empty")))
+		}
 		return eq(app("slen", a), "0")
 	}
 	c.extensional(a, b)
@@ -67,6 +72,9 @@ func (c *Ctx) strEq(a, b T) T {
 }
 
 func (c *Ctx) extensional(a, b T) {
+	if strings.Contains(a, "q.") || strings.Contains(b, "q.") {
+		return // bound variable: no global instance
+	}
 	if a == b || a == "str.empty" || b == "str.empty" {
 		if a != b {
 			x := a
@@ -150,8 +158,8 @@ func (c *Ctx) contentEq(st1 *State, a Val, st2 *State, b Val) T {
 	i := fmt.Sprintf("q.ce.%d", id)
 	var cs []T
 	for k := range ls {
-		x := sel(c.elemArray(st1, sa.Elem(), k, a.L[0]), add(a.L[1], i))
-		y := sel(c.elemArray(st2, sa.Elem(), k, b.L[0]), add(b.L[1], i))
+		x := sel(c.elemArray(st1, sa.Elem(), k, a.L[0]), slIdx(a.L[1], i))
+		y := sel(c.elemArray(st2, sa.Elem(), k, b.L[0]), slIdx(b.L[1], i))
 		if ls[k].Sort == sStr {
 			cs = append(cs, eq(x, y))
 		} else {
